@@ -27,7 +27,8 @@ Lin       == l' = l /\ DoTestAndSet
 
 TNext == TReset \/ TCall \/ TDelegate \/ TReturn \/ Lin
 TSpec == TInit /\ [][TNext]_tvars
-Hwm == HwmConstraint(l)
+\* once some path has consumed the whole trace it is explained: stop TLC (no error trace)
+Hwm == HwmConstraint(l) /\ (l > Len(Trace) => TLCSet("exit", TRUE))
 Accepted == HwmAccepted
 NotDone == l <= Len(Trace)
 =============================================================================
